@@ -40,6 +40,17 @@ def updateSelected {α β : Type} (v : List α) (y : List β) (pred : β → Boo
 def mapExtend {α : Type} (a b : List (String × α)) : List (String × α) :=
   a.filter (fun p => !(b.any (·.1 == p.1))) ++ b
 
+/-- `HashMap::contains_key` -/
+def mapContains {α : Type} (m : List (String × α)) (k : String) : Bool := m.any (·.1 == k)
+
+/-- `HashMap::insert`: replaces an entry with the same key -/
+def mapInsert {α : Type} (m : List (String × α)) (k : String) (v : α) : List (String × α) :=
+  m.filter (fun p => !(p.1 == k)) ++ [(k, v)]
+
+/-- `HashMap::get` (keys are unique in a `HashMap`; on an association list the last entry wins) -/
+def mapGet {α : Type} (m : List (String × α)) (k : String) : Option α :=
+  (m.reverse.find? (fun p => p.1 == k)).map (·.2)
+
 /-- `x.powi(n)` for a non-negative exponent -/
 def powi {R : Type} [One R] [Mul R] (x : R) : Nat → R
   | 0 => 1
